@@ -52,13 +52,17 @@ VARIABLES
   exh,       \* scheduler answered "nothing left"
   phase,     \* "loop" | "fin" | "done"
   dead,      \* trials whose failure / external stop the back-end has reported to the loop
+  cq,        \* [Trials -> number of queued clone decisions naming the trial, taken while its checkpoint existed]
   flags,     \* set of raised flags
   \* ---- program (Tuner.run locals / attributes, generic backend state)
-  pc, running, seen, batch, snap, done, sstop, lsr, tss, stopReached, exhausted, todoN, cur, todo, exc
+  pc, running, seen, batch, snap, done, sstop, lsr, tss, stopReached, exhausted, todoN, cur, todo, exc,
+  \* ---- program, scheduler side (cf.kind = "pbt": PopulationBasedTraining's clone queue)
+  stack,     \* _trial_decisions_stack: clone sources waiting for the next suggest (LIFO)
+  pst        \* trials the scheduler marked as stopped (PBTTrialState.stopped)
 
 envV  == <<wst, em, ext>>
-monV  == <<dl, life, dec, ps, ck, rmv, nstart, nhand, stopHeld, exh, phase, dead, flags>>
-progV == <<pc, running, seen, batch, snap, done, sstop, lsr, tss, stopReached, exhausted, todoN, cur, todo, exc>>
+monV  == <<dl, life, dec, ps, ck, rmv, nstart, nhand, stopHeld, exh, phase, dead, cq, flags>>
+progV == <<pc, running, seen, batch, snap, done, sstop, lsr, tss, stopReached, exhausted, todoN, cur, todo, exc, stack, pst>>
 vars  == <<cf, envV, monV, progV>>
 
 ----------------------------------------------------------------------------
@@ -92,7 +96,7 @@ W_Emit(t) ==
   /\ cf.r3 => pc \notin {"stop", "pause"}                \* environment restriction excluding known finding F03
   /\ em' = [em EXCEPT ![t][CurRun(t)] = @ + 1]
   /\ ck' = [ck EXCEPT ![t] = "present"]      \* the script checkpoints at every report
-  /\ UNCHANGED <<wst, ext, dl, life, dec, ps, rmv, nstart, nhand, stopHeld, exh, phase, dead, flags>>
+  /\ UNCHANGED <<wst, ext, dl, life, dec, ps, rmv, nstart, nhand, stopHeld, exh, phase, dead, cq, flags>>
 
 W_Exit(t) ==
   /\ wst[t] = "busy" /\ (em[t][CurRun(t)] > 0 \/ cf.emptyexit)
@@ -118,7 +122,7 @@ W_ExtStop(t) ==
 EvFetch(n, D) ==
   /\ nhand' = nhand + n
   /\ dead' = dead \cup D
-  /\ UNCHANGED <<envV, dl, life, dec, ps, ck, rmv, nstart, stopHeld, exh, phase, flags>>
+  /\ UNCHANGED <<envV, dl, life, dec, ps, ck, rmv, nstart, stopHeld, exh, phase, cq, flags>>
 
 \* scheduler.on_trial_result(trial t, report <<r, i>>) returned decision d
 EvResult(t, r, i, d) ==
@@ -133,7 +137,7 @@ EvResult(t, r, i, d) ==
        \cup Flag(phase # "loop", "result_after_end")
   /\ dl'  = IF r = c /\ r >= 1 THEN [dl EXCEPT ![t][r] = i] ELSE dl
   /\ dec' = IF d \in {"STOP", "PAUSE"} THEN [dec EXCEPT ![t] = d] ELSE dec
-  /\ UNCHANGED <<envV, life, ps, ck, rmv, nstart, nhand, stopHeld, exh, phase, dead>>
+  /\ UNCHANGED <<envV, life, ps, ck, rmv, nstart, nhand, stopHeld, exh, phase, dead, cq>>
 
 \* backend.stop_trial(t) / backend.pause_trial(t): immediate kill
 EvStopTrial(t) ==
@@ -141,28 +145,28 @@ EvStopTrial(t) ==
                     \cup Flag(dec[t] # "STOP" /\ phase = "loop", "stop_without_decision")
   /\ wst'  = [wst EXCEPT ![t] = IF @ = "busy" THEN "killed" ELSE @]
   /\ life' = [life EXCEPT ![t] = "stopped"]
-  /\ UNCHANGED <<em, ext, dl, dec, ps, ck, rmv, nstart, nhand, stopHeld, exh, phase, dead>>
+  /\ UNCHANGED <<em, ext, dl, dec, ps, ck, rmv, nstart, nhand, stopHeld, exh, phase, dead, cq>>
 
 EvPauseTrial(t) ==
   /\ flags' = flags \cup Flag(life[t] # "running", "pause_not_running")
                     \cup Flag(dec[t] # "PAUSE", "pause_without_decision")
   /\ wst'  = [wst EXCEPT ![t] = IF @ = "busy" THEN "killed" ELSE @]
   /\ life' = [life EXCEPT ![t] = "paused"]
-  /\ UNCHANGED <<em, ext, dl, dec, ps, ck, rmv, nstart, nhand, stopHeld, exh, phase, dead>>
+  /\ UNCHANGED <<em, ext, dl, dec, ps, ck, rmv, nstart, nhand, stopHeld, exh, phase, dead, cq>>
 
 \* scheduler.on_trial_remove / on_trial_complete / on_trial_error
 EvRemove(t) ==
   /\ flags' = flags \cup Flag(ps[t] # "live", "protocol_remove")
                     \cup Flag(dec[t] = "none", "remove_without_decision")
   /\ ps' = [ps EXCEPT ![t] = "removed"]
-  /\ UNCHANGED <<envV, dl, life, dec, ck, rmv, nstart, nhand, stopHeld, exh, phase, dead>>
+  /\ UNCHANGED <<envV, dl, life, dec, ck, rmv, nstart, nhand, stopHeld, exh, phase, dead, cq>>
 
 EvComplete(t) ==
   /\ flags' = flags \cup Flag(ps[t] # "live", "protocol_complete")
                     \cup Flag(wst[t] # "ok", "complete_not_exited")
                     \cup Flag(CurRun(t) >= 1 /\ dl[t][CurRun(t)] < em[t][CurRun(t)], "complete_missing")  \* C02
   /\ ps' = [ps EXCEPT ![t] = "completed"]
-  /\ UNCHANGED <<envV, dl, life, dec, ck, rmv, nstart, nhand, stopHeld, exh, phase, dead>>
+  /\ UNCHANGED <<envV, dl, life, dec, ck, rmv, nstart, nhand, stopHeld, exh, phase, dead, cq>>
 
 EvError(t) ==
   /\ flags' = flags \cup Flag(ps[t] = "removed", "error_after_remove")       \* C01: second end-of-run notification
@@ -171,13 +175,13 @@ EvError(t) ==
   /\ ps' = [ps EXCEPT ![t] = "errored"]
   \* an observed crash is registered as failed whatever was decided before
   /\ life' = [life EXCEPT ![t] = IF wst[t] = "fail" THEN "failed" ELSE IF @ = "running" THEN "stopped" ELSE @]
-  /\ UNCHANGED <<envV, dl, dec, ck, rmv, nstart, nhand, stopHeld, exh, phase, dead>>
+  /\ UNCHANGED <<envV, dl, dec, ck, rmv, nstart, nhand, stopHeld, exh, phase, dead, cq>>
 
 \* TunerCallback.on_trial_complete: the loop registered t as completed
 EvCbComplete(t) ==
   /\ flags' = flags \cup Flag(wst[t] # "ok", "complete_not_exited")
   /\ life' = [life EXCEPT ![t] = IF @ = "running" THEN "completed" ELSE @]
-  /\ UNCHANGED <<envV, dl, dec, ps, ck, rmv, nstart, nhand, stopHeld, exh, phase, dead>>
+  /\ UNCHANGED <<envV, dl, dec, ps, ck, rmv, nstart, nhand, stopHeld, exh, phase, dead, cq>>
 
 \* backend.start_trial(config, checkpoint_trial_id = from) returned trial t
 EvStart(t, from) ==
@@ -185,7 +189,12 @@ EvStart(t, from) ==
   /\ flags' = flags \cup Flag(t # nstart \/ wst[t] # "none", "id_sequence")                       \* C01
                     \cup Flag(Cardinality(Busy) >= cf.nw, "worker_budget")     \* C01
                     \cup Flag(stopHeld, "start_after_stop")                    \* C12
-                    \cup Flag(from # NoTrial /\ (from \notin Trials \/ ck[from] # "present"), "copy_missing")  \* C20
+                    \* C20: suggest() named a clone source whose checkpoint is gone; told apart: the clone decision
+                    \* was queued while the checkpoint still existed (the source was stopped while queued), or not
+                    \cup Flag(from # NoTrial /\ from \in Trials /\ ck[from] # "present" /\ cq[from] > 0,
+                              "copy_missing_stopped_while_queued")
+                    \cup Flag(from # NoTrial /\ (from \notin Trials \/ (ck[from] # "present" /\ cq[from] = 0)),
+                              "copy_missing")
                     \cup Flag(phase # "loop", "start_after_end")
   /\ wst' = [wst EXCEPT ![t] = "busy"]
   /\ em'  = [em EXCEPT ![t] = <<0>>]
@@ -193,12 +202,19 @@ EvStart(t, from) ==
   /\ life' = [life EXCEPT ![t] = "running"]
   /\ ck'  = [ck EXCEPT ![t] = IF from # NoTrial THEN "present" ELSE "none"]
   /\ nstart' = nstart + 1
+  /\ cq' = IF from \in Trials /\ cq[from] > 0 THEN [cq EXCEPT ![from] = @ - 1] ELSE cq
   /\ UNCHANGED <<ext, dec, ps, rmv, nhand, stopHeld, exh, phase, dead>>
 
 EvAdd(t) ==
   /\ flags' = flags \cup Flag(ps[t] # "new" \/ life[t] # "running", "protocol_add")
   /\ ps' = [ps EXCEPT ![t] = "live"]
-  /\ UNCHANGED <<envV, dl, life, dec, ck, rmv, nstart, nhand, stopHeld, exh, phase, dead>>
+  /\ UNCHANGED <<envV, dl, life, dec, ck, rmv, nstart, nhand, stopHeld, exh, phase, dead, cq>>
+
+\* the scheduler queued "start a new trial from the checkpoint of s" for a later suggest()
+\* (PopulationBasedTraining._trial_decisions_stack.append, inside on_trial_result)
+EvQueue(s) ==
+  /\ cq' = IF s \in Trials /\ ck[s] = "present" THEN [cq EXCEPT ![s] = @ + 1] ELSE cq
+  /\ UNCHANGED <<envV, dl, life, dec, ps, ck, rmv, nstart, nhand, stopHeld, exh, phase, dead, flags>>
 
 \* backend.resume_trial(t)
 EvResume(t) ==
@@ -216,7 +232,7 @@ EvResume(t) ==
   /\ dec' = [dec EXCEPT ![t] = "none"]
   /\ life' = [life EXCEPT ![t] = "running"]
   /\ ps'  = [ps EXCEPT ![t] = "live"]
-  /\ UNCHANGED <<ext, ck, rmv, nstart, nhand, stopHeld, exh, phase, dead>>
+  /\ UNCHANGED <<ext, ck, rmv, nstart, nhand, stopHeld, exh, phase, dead, cq>>
 
 \* backend.delete_checkpoint(t)
 EvDelete(t) ==
@@ -224,17 +240,17 @@ EvDelete(t) ==
                                  \/ phase # "loop"
                                  \/ (life[t] = "paused" /\ t \in rmv) ), "delete_live")   \* C20
   /\ ck' = [ck EXCEPT ![t] = IF @ = "none" THEN "none" ELSE "deleted"]
-  /\ UNCHANGED <<envV, dl, life, dec, ps, rmv, nstart, nhand, stopHeld, exh, phase, dead>>
+  /\ UNCHANGED <<envV, dl, life, dec, ps, rmv, nstart, nhand, stopHeld, exh, phase, dead, cq>>
 
 \* the scheduler declares S as never-resumable (trials_checkpoints_can_be_removed)
 EvRemovable(S) ==
   /\ rmv' = rmv \cup S
-  /\ UNCHANGED <<envV, dl, life, dec, ps, ck, nstart, nhand, stopHeld, exh, phase, dead, flags>>
+  /\ UNCHANGED <<envV, dl, life, dec, ps, ck, nstart, nhand, stopHeld, exh, phase, dead, cq, flags>>
 
 \* scheduler.suggest returned None
 EvExhausted ==
   /\ exh' = TRUE
-  /\ UNCHANGED <<envV, dl, life, dec, ps, ck, rmv, nstart, nhand, stopHeld, phase, dead, flags>>
+  /\ UNCHANGED <<envV, dl, life, dec, ps, ck, rmv, nstart, nhand, stopHeld, phase, dead, cq, flags>>
 
 \* counters the monitor derives from the events
 MonFailed   == NumLife({"failed"})
@@ -252,12 +268,12 @@ EvStopCrit(b) ==
                     \* C13: at the end of the iteration every failure the back-end reported has been passed on
                     \cup Flag(\E t \in dead : ps[t] = "live", "failure_not_notified")
   /\ stopHeld' = (stopHeld \/ b)
-  /\ UNCHANGED <<envV, dl, life, dec, ps, ck, rmv, nstart, nhand, exh, phase, dead>>
+  /\ UNCHANGED <<envV, dl, life, dec, ps, ck, rmv, nstart, nhand, exh, phase, dead, cq>>
 
 \* on_loop_start: a new iteration begins
 EvIter ==
   /\ flags' = flags \cup Flag(stopHeld /\ ~(cf.wait /\ NumLife({"running"}) > 0), "loop_after_stop")   \* C12
-  /\ UNCHANGED <<envV, dl, life, dec, ps, ck, rmv, nstart, nhand, stopHeld, exh, phase, dead>>
+  /\ UNCHANGED <<envV, dl, life, dec, ps, ck, rmv, nstart, nhand, stopHeld, exh, phase, dead, cq>>
 
 \* backend.stop_all(): S = trials it stopped
 EvStopAll(S) ==
@@ -265,7 +281,7 @@ EvStopAll(S) ==
   \* from the tuner's point of view everything it believed running is now stopped
   /\ life' = [t \in Trials |-> IF life[t] = "running" THEN "stopped" ELSE life[t]]
   /\ phase' = "fin"
-  /\ UNCHANGED <<em, ext, dl, dec, ps, ck, rmv, nstart, nhand, stopHeld, exh, dead, flags>>
+  /\ UNCHANGED <<em, ext, dl, dec, ps, ck, rmv, nstart, nhand, stopHeld, exh, dead, cq, flags>>
 
 \* run() returned (kind = "normal") or raised (kind = "failure": named = trial in the message;
 \* kind = "nometrics": a trial completed without reporting; "other")
@@ -286,7 +302,7 @@ EvEnd(kind, named, cnt) ==
        \cup Flag(kind \in {"normal", "failure"} /\ cnt # <<>> /\ cnt # <<nstart, NumLife({"completed"}), NumLife({"failed"}),
                                       NumLife({"completed", "stopped", "failed"})>>, "counters")   \* C12
   /\ phase' = "done"
-  /\ UNCHANGED <<envV, dl, life, dec, ps, ck, rmv, nstart, nhand, stopHeld, exh, dead>>
+  /\ UNCHANGED <<envV, dl, life, dec, ps, ck, rmv, nstart, nhand, stopHeld, exh, dead, cq>>
 
 ----------------------------------------------------------------------------
 (* The properties, as invariants over the monitor *)
@@ -317,7 +333,7 @@ FailureLimit        == NoFlag("failure_limit") /\ NoFlag("failure_not_named")
 FailureNotifiedOnce == NoFlag("protocol_error") /\ NoFlag("failure_not_notified")
 \* C20
 DeleteOnlyWhenDead  == NoFlag("delete_live")
-CopySourceExists    == NoFlag("copy_missing")
+CopySourceExists    == NoFlag("copy_missing") /\ NoFlag("copy_missing_stopped_while_queued")
 ResumeSourceExists  == NoFlag("resume_ckpt_missing")
 StopPauseDecided    == NoFlag("stop_without_decision") /\ NoFlag("pause_without_decision")
 
@@ -331,6 +347,7 @@ InitCommon(c) ==
   /\ dec = [t \in Trials |-> "none"] /\ ps = [t \in Trials |-> "new"]
   /\ ck = [t \in Trials |-> "none"] /\ rmv = {} /\ nstart = 0 /\ nhand = 0
   /\ stopHeld = FALSE /\ exh = FALSE /\ phase = "loop" /\ dead = {} /\ flags = {}
+  /\ cq = [t \in Trials |-> 0] /\ stack = <<>> /\ pst = {}
   /\ pc = "stopcond0" /\ running = {} /\ seen = [t \in Trials |-> 0]
   /\ batch = [t \in Trials |-> <<0, 0>>] /\ snap = [t \in Trials |-> "none"]
   /\ done = [t \in Trials |-> "none"] /\ sstop = {} /\ lsr = {}
@@ -356,7 +373,7 @@ T_StopCond ==
                                         ELSE {ImplStopCondition}) :
         /\ EvStopCrit(b) /\ stopReached' = b
   /\ pc' = "loopcheck"
-  /\ UNCHANGED <<cf, running, seen, batch, snap, done, sstop, lsr, tss, exhausted, todoN, cur, todo, exc>>
+  /\ UNCHANGED <<cf, running, seen, batch, snap, done, sstop, lsr, tss, exhausted, todoN, cur, todo, exc, stack, pst>>
 
 \* while not stop_condition_reached or wait_trial_completion_when_stopping and len(running) > 0
 T_LoopCheck ==
@@ -364,7 +381,7 @@ T_LoopCheck ==
   /\ IF ~stopReached \/ (cf.wait /\ running # {})
        THEN /\ EvIter /\ pc' = "fetch"
        ELSE /\ pc' = "finally" /\ UNCHANGED <<envV, monV>>
-  /\ UNCHANGED <<cf, running, seen, batch, snap, done, sstop, lsr, tss, stopReached, exhausted, todoN, cur, todo, exc>>
+  /\ UNCHANGED <<cf, running, seen, batch, snap, done, sstop, lsr, tss, stopReached, exhausted, todoN, cur, todo, exc, stack, pst>>
 
 \* TrialBackend.fetch_status_results(list(running)):  status from the process, new metrics are
 \* metrics[seen:] unless the status is Paused/Stopping/Stopped (then hidden, seen NOT advanced)
@@ -379,36 +396,54 @@ T_Fetch ==
   /\ EvFetch(SumSeq([i \in 1..NT |-> IF (i-1) \in running THEN FetchNew(i-1)[2] - FetchNew(i-1)[1] ELSE 0]),
              {t \in running : BackendStatus(t) = "Failed" \/ (BackendStatus(t) = "Stopped" /\ t \in ext)})
   /\ pc' = "results"
-  /\ UNCHANGED <<cf, running, sstop, lsr, tss, stopReached, exhausted, todoN, cur, todo, exc>>
+  /\ UNCHANGED <<cf, running, sstop, lsr, tss, stopReached, exhausted, todoN, cur, todo, exc, stack, pst>>
 
 Decisions == IF cf.kind = "pause" THEN {"CONTINUE", "STOP", "PAUSE"} ELSE {"CONTINUE", "STOP"}
+
+SeqSet(q) == {q[j] : j \in 1..Len(q)}
+
+\* PopulationBasedTraining.on_trial_result, exploit branch (cf.kind = "pbt"): trial t is in the lower quantile; a trial
+\* s of the upper quantile (not marked stopped, has a score) is queued as clone source, t is marked stopped and STOP
+\* is returned.  The quantiles are abstracted to "any other scored trial that is not marked stopped".
+T_Exploit(t, s) ==
+  /\ pc = "results" /\ cf.kind = "pbt" /\ batch[t][1] < batch[t][2] /\ done[t] = "none"
+  /\ s # t /\ s \in lsr /\ s \notin pst /\ t \notin pst
+  /\ EvQueue(s)
+  /\ stack' = Append(stack, s)
+  /\ cur' = t /\ pc' = "exploit"
+  /\ UNCHANGED <<cf, running, seen, batch, snap, done, sstop, lsr, tss, stopReached, exhausted, todoN, todo, exc, pst>>
 
 \* for trial_id, result in new_results: if trial_id not in done_trials: decision = on_trial_result(...)
 \* (results are sorted by worker time stamp: any merge that keeps each trial's own order)
 T_Result(t, d) ==
-  /\ pc = "results" /\ batch[t][1] < batch[t][2] /\ done[t] = "none"
+  /\ \/ pc = "results"
+     \/ pc = "exploit" /\ t = cur /\ d = "STOP"
+  /\ batch[t][1] < batch[t][2] /\ done[t] = "none"
   /\ (cf.r13 /\ snap[t] = "Failed") => d = "CONTINUE"     \* environment restriction excluding known finding F13
+  \* schedule restriction excluding known finding F08: no STOP for a trial that is queued as clone source
+  /\ (cf.r8 /\ d = "STOP") => t \notin SeqSet(stack)
   /\ LET ri == PosRunIdx(em[t], batch[t][1] + 1) IN EvResult(t, ri[1], ri[2], d)
   /\ batch' = [batch EXCEPT ![t][1] = @ + 1]
   /\ lsr' = lsr \cup {t}
   /\ cur' = t
+  /\ pst' = IF d = "STOP" THEN pst \cup {t} ELSE pst
   /\ pc' = CASE d = "STOP" -> (IF snap[t] # "Completed" THEN "stop" ELSE "remove_s")
              [] d = "PAUSE" -> "pause"
              [] OTHER -> "results"
-  /\ UNCHANGED <<cf, running, seen, snap, done, sstop, tss, stopReached, exhausted, todoN, todo, exc>>
+  /\ UNCHANGED <<cf, running, seen, snap, done, sstop, tss, stopReached, exhausted, todoN, todo, exc, stack>>
 
 \* if status != Completed: status = Stopped; backend.stop_trial(...)
 T_Stop ==
   /\ pc = "stop" /\ EvStopTrial(cur)
   /\ pc' = IF cf.del THEN "stopdel" ELSE "remove_s"
-  /\ UNCHANGED <<cf, running, seen, batch, snap, done, sstop, lsr, tss, stopReached, exhausted, todoN, cur, todo, exc>>
+  /\ UNCHANGED <<cf, running, seen, batch, snap, done, sstop, lsr, tss, stopReached, exhausted, todoN, cur, todo, exc, stack, pst>>
 \* TrialBackend.stop_trial: if self.delete_checkpoints: self.delete_checkpoint(trial_id)
 T_StopDel ==
   /\ pc = "stopdel" /\ EvDelete(cur) /\ pc' = "remove_s"
-  /\ UNCHANGED <<cf, running, seen, batch, snap, done, sstop, lsr, tss, stopReached, exhausted, todoN, cur, todo, exc>>
+  /\ UNCHANGED <<cf, running, seen, batch, snap, done, sstop, lsr, tss, stopReached, exhausted, todoN, cur, todo, exc, stack, pst>>
 T_Pause ==
   /\ pc = "pause" /\ EvPauseTrial(cur) /\ pc' = "remove_p"
-  /\ UNCHANGED <<cf, running, seen, batch, snap, done, sstop, lsr, tss, stopReached, exhausted, todoN, cur, todo, exc>>
+  /\ UNCHANGED <<cf, running, seen, batch, snap, done, sstop, lsr, tss, stopReached, exhausted, todoN, cur, todo, exc, stack, pst>>
 \* scheduler.on_trial_remove(trial); done_trials[trial_id] = (trial, status); the rest of the batch of
 \* this trial is skipped by the "not in done_trials" guard
 T_Remove ==
@@ -418,13 +453,13 @@ T_Remove ==
   /\ sstop' = IF pc = "remove_s" THEN sstop \cup {cur} ELSE sstop
   /\ batch' = [batch EXCEPT ![cur] = <<0, 0>>]
   /\ pc' = "results"
-  /\ UNCHANGED <<cf, running, seen, snap, lsr, tss, stopReached, exhausted, todoN, cur, todo, exc>>
+  /\ UNCHANGED <<cf, running, seen, snap, lsr, tss, stopReached, exhausted, todoN, cur, todo, exc, stack, pst>>
 
 BatchEmpty == \A t \in Trials : batch[t][1] >= batch[t][2] \/ done[t] # "none"
 T_ResultsDone ==
   /\ pc = "results" /\ BatchEmpty
   /\ todo' = running /\ pc' = "statuses"
-  /\ UNCHANGED <<cf, envV, monV, running, seen, batch, snap, done, sstop, lsr, tss, stopReached, exhausted, todoN, cur, exc>>
+  /\ UNCHANGED <<cf, envV, monV, running, seen, batch, snap, done, sstop, lsr, tss, stopReached, exhausted, todoN, cur, exc, stack, pst>>
 
 \* second loop of _update_running_trials: for trial_id, (trial, status) in trial_status_dict.items()
 \* (uses the status of the poll, not the overridden one)
@@ -448,11 +483,11 @@ T_Status ==
           [] snap[t] = "Stopped" /\ t \notin sstop ->
                /\ EvError(t) /\ done' = [done EXCEPT ![t] = "Stopped"] /\ pc' = "statuses" /\ exc' = exc
           [] OTHER -> /\ UNCHANGED <<envV, monV, done, exc>> /\ pc' = "statuses"
-  /\ UNCHANGED <<cf, running, seen, batch, snap, sstop, lsr, tss, stopReached, exhausted, todoN>>
+  /\ UNCHANGED <<cf, running, seen, batch, snap, sstop, lsr, tss, stopReached, exhausted, todoN, stack, pst>>
 \* if status == Completed: callback.on_trial_complete(trial, last_result)
 T_CbComplete ==
   /\ pc = "cbcomplete" /\ EvCbComplete(cur) /\ pc' = "statuses"
-  /\ UNCHANGED <<cf, running, seen, batch, snap, done, sstop, lsr, tss, stopReached, exhausted, todoN, cur, todo, exc>>
+  /\ UNCHANGED <<cf, running, seen, batch, snap, done, sstop, lsr, tss, stopReached, exhausted, todoN, cur, todo, exc, stack, pst>>
 
 \* trial_status_dict.update(done); tuning_status.update(...); running -= done
 T_StatusUpdate ==
@@ -460,7 +495,7 @@ T_StatusUpdate ==
   /\ tss' = [t \in Trials |-> IF t \in running THEN (IF done[t] # "none" THEN done[t] ELSE snap[t]) ELSE tss[t]]
   /\ running' = {t \in running : done[t] = "none"}
   /\ pc' = "sched"
-  /\ UNCHANGED <<cf, envV, monV, seen, batch, snap, done, sstop, lsr, stopReached, exhausted, todoN, cur, todo, exc>>
+  /\ UNCHANGED <<cf, envV, monV, seen, batch, snap, done, sstop, lsr, stopReached, exhausted, todoN, cur, todo, exc, stack, pst>>
 
 \* the if / else around _schedule_new_tasks
 T_Sched ==
@@ -472,35 +507,39 @@ T_Sched ==
             IF Cardinality(running) >= thr
               THEN pc' = "loopend" /\ todoN' = 0                        \* sleep
               ELSE pc' = "suggest" /\ todoN' = cf.nw - Cardinality(running)
-  /\ UNCHANGED <<cf, envV, monV, running, seen, batch, snap, done, sstop, lsr, tss, stopReached, exhausted, cur, todo, exc>>
+  /\ UNCHANGED <<cf, envV, monV, running, seen, batch, snap, done, sstop, lsr, tss, stopReached, exhausted, cur, todo, exc, stack, pst>>
 
 \* scheduler.suggest(): an abstract LEGAL scheduler -- a new trial, a paused trial it removed, or None
 T_SuggestNew ==
   /\ pc = "suggest" /\ todoN > 0 /\ nstart < NT
-  /\ EvStart(nstart, NoTrial) /\ cur' = nstart /\ pc' = "add"
-  /\ UNCHANGED <<cf, running, seen, batch, snap, done, sstop, lsr, tss, stopReached, exhausted, todoN, todo, exc>>
+  \* PopulationBasedTraining._suggest: pop the most recent clone decision if there is one
+  /\ IF stack # <<>>
+       THEN EvStart(nstart, stack[Len(stack)]) /\ stack' = SubSeq(stack, 1, Len(stack) - 1)
+       ELSE EvStart(nstart, NoTrial) /\ stack' = stack
+  /\ cur' = nstart /\ pc' = "add"
+  /\ UNCHANGED <<cf, running, seen, batch, snap, done, sstop, lsr, tss, stopReached, exhausted, todoN, todo, exc, pst>>
 T_Add ==
   /\ pc = "add" /\ EvAdd(cur)
   /\ running' = running \cup {cur} /\ tss' = [tss EXCEPT ![cur] = "InProgress"]
   /\ todoN' = todoN - 1 /\ pc' = "suggest"
-  /\ UNCHANGED <<cf, seen, batch, snap, done, sstop, lsr, stopReached, exhausted, cur, todo, exc>>
+  /\ UNCHANGED <<cf, seen, batch, snap, done, sstop, lsr, stopReached, exhausted, cur, todo, exc, stack, pst>>
 T_SuggestResume(t) ==
   /\ pc = "suggest" /\ todoN > 0 /\ cf.kind = "pause"
   /\ life[t] = "paused" /\ ps[t] = "removed" /\ t \notin running
   /\ EvResume(t)
   /\ running' = running \cup {t} /\ tss' = [tss EXCEPT ![t] = "InProgress"]
   /\ todoN' = todoN - 1
-  /\ UNCHANGED <<cf, pc, seen, batch, snap, done, sstop, lsr, stopReached, exhausted, cur, todo, exc>>
+  /\ UNCHANGED <<cf, pc, seen, batch, snap, done, sstop, lsr, stopReached, exhausted, cur, todo, exc, stack, pst>>
 T_SuggestNone ==
   /\ pc = "suggest" /\ todoN > 0 /\ (cf.mayexhaust \/ nstart >= NT)
   /\ EvExhausted /\ exhausted' = TRUE /\ todoN' = 0 /\ pc' = "loopend"
-  /\ UNCHANGED <<cf, running, seen, batch, snap, done, sstop, lsr, tss, stopReached, cur, todo, exc>>
+  /\ UNCHANGED <<cf, running, seen, batch, snap, done, sstop, lsr, tss, stopReached, cur, todo, exc, stack, pst>>
 T_SuggestDone ==
   /\ pc = "suggest" /\ todoN = 0 /\ pc' = "loopend"
-  /\ UNCHANGED <<cf, envV, monV, running, seen, batch, snap, done, sstop, lsr, tss, stopReached, exhausted, todoN, cur, todo, exc>>
+  /\ UNCHANGED <<cf, envV, monV, running, seen, batch, snap, done, sstop, lsr, tss, stopReached, exhausted, todoN, cur, todo, exc, stack, pst>>
 T_LoopEnd ==
   /\ pc = "loopend" /\ pc' = "stopcond"
-  /\ UNCHANGED <<cf, envV, monV, running, seen, batch, snap, done, sstop, lsr, tss, stopReached, exhausted, todoN, cur, todo, exc>>
+  /\ UNCHANGED <<cf, envV, monV, running, seen, batch, snap, done, sstop, lsr, tss, stopReached, exhausted, todoN, cur, todo, exc, stack, pst>>
 
 \* finally: backend.stop_all(); mark_running_job_as_stopped(); failure error
 T_StopAll ==
@@ -508,7 +547,7 @@ T_StopAll ==
   /\ EvStopAll({t \in Trials : life[t] # "none" /\ BackendStatus(t) = "InProgress"})
   /\ tss' = [t \in Trials |-> IF tss[t] = "InProgress" THEN "Stopped" ELSE tss[t]]
   /\ pc' = "end"
-  /\ UNCHANGED <<cf, running, seen, batch, snap, done, sstop, lsr, stopReached, exhausted, todoN, cur, todo, exc>>
+  /\ UNCHANGED <<cf, running, seen, batch, snap, done, sstop, lsr, stopReached, exhausted, todoN, cur, todo, exc, stack, pst>>
 FailedSeen == {t \in Trials : tss[t] = "Failed"}
 T_End ==
   /\ pc = "end"
@@ -519,7 +558,7 @@ T_End ==
                   <<TssStarted, TssCount({"Completed"}), TssCount({"Failed"}),
                     TssCount({"Completed", "Stopped", "Stopping", "Failed"})>>)
   /\ pc' = "done"
-  /\ UNCHANGED <<cf, running, seen, batch, snap, done, sstop, lsr, tss, stopReached, exhausted, todoN, cur, todo, exc>>
+  /\ UNCHANGED <<cf, running, seen, batch, snap, done, sstop, lsr, tss, stopReached, exhausted, todoN, cur, todo, exc, stack, pst>>
 
 \* Worker steps commute with every tuner step that does not observe the processes; it is
 \* therefore enough (and sound for the monitored properties) to let them happen right
@@ -533,6 +572,7 @@ W_Step ==
 T_Step ==
   \/ T_StopCond \/ T_LoopCheck \/ T_Fetch
   \/ \E t \in Trials, d \in Decisions : T_Result(t, d)
+  \/ \E t \in Trials, s \in Trials : T_Exploit(t, s)
   \/ T_Stop \/ T_StopDel \/ T_Pause \/ T_Remove \/ T_ResultsDone \/ T_Status \/ T_CbComplete
   \/ T_StatusUpdate \/ T_Sched \/ T_SuggestNew \/ T_Add \/ (\E t \in Trials : T_SuggestResume(t))
   \/ T_SuggestNone \/ T_SuggestDone \/ T_LoopEnd \/ T_StopAll \/ T_End
